@@ -304,3 +304,113 @@ func emptyMemberCases(r *vproto.Rng, n int, emit func(l geom.Geom, p geom.Geom))
 		emit(shapes.ScaleGeom(l, f), shapes.ScaleGeom(out, f))
 	}
 }
+
+// affine maps every coordinate x to x*s+ox (y*s+oy): with a non-dyadic s and an offset the coordinates use
+// all 53 bits of the mantissa (the grid cases are exactly representable in far fewer).
+func affine(g geom.Geom, s, ox, oy float64) geom.Geom {
+	pt := func(p geom.Point) geom.Point { return geom.Point{X: p.X*s + ox, Y: p.Y*s + oy} }
+	path := func(ps []geom.Point) []geom.Point {
+		if ps == nil {
+			return nil
+		}
+		o := make([]geom.Point, len(ps))
+		for i, p := range ps {
+			o[i] = pt(p)
+		}
+		return o
+	}
+	poly := func(pg geom.Polygon) geom.Polygon {
+		o := make(geom.Polygon, len(pg))
+		for i, r := range pg {
+			o[i] = path(r)
+		}
+		return o
+	}
+	switch x := g.(type) {
+	case geom.LineString:
+		return geom.LineString(path(x))
+	case geom.MultiLineString:
+		o := make(geom.MultiLineString, len(x))
+		for i, l := range x {
+			o[i] = geom.LineString(path(l))
+		}
+		return o
+	case geom.Polygon:
+		return poly(x)
+	case geom.MultiPolygon:
+		o := make(geom.MultiPolygon, len(x))
+		for i, pg := range x {
+			o[i] = poly(pg)
+		}
+		return o
+	case *geom.Bounds:
+		a, b := pt(x.Min), pt(x.Max)
+		return &geom.Bounds{Min: a, Max: b}
+	}
+	panic("affine: unexpected geometry type")
+}
+
+// affineCases: the ordinary families under a non-dyadic scale and an offset.
+func affineCases(r *vproto.Rng, n int, emit func(l geom.Geom, p geom.Geom)) {
+	scales := []float64{0.1, 1.0 / 3, 0.7, 1.1e-3, 37.3}
+	offs := []float64{0, 1000.37, -512.9}
+	for i := 0; i < n; i++ {
+		kind := kinds[i%3]
+		style := styleCycle[r.Intn(len(styleCycle))]
+		P := placedShape(r, kind, style)
+		l := makeLine(r, P, style, i%2 == 1)
+		s := scales[r.Intn(len(scales))]
+		ox, oy := offs[r.Intn(len(offs))]*s, offs[r.Intn(len(offs))]*s
+		emit(affine(l, s, ox, oy), affine(P.ToGeom(2, r.Bool()), s, ox, oy))
+	}
+}
+
+// quadCases: polygons of three or four vertices that are NOT rectangles (diamond, dart, trapezoid,
+// triangle) as PG / one-member MPG, open and closed spelling; lines whose vertices all lie strictly
+// within the polygon's bounding box (so inside, outside and crossing parts all occur inside the box).
+func quadCases(r *vproto.Rng, n int, emit func(l geom.Geom, p geom.Geom)) {
+	for c := 0; c < n; c++ {
+		cx, cy := 2*int64(r.Range(-5, 5))+1, 2*int64(r.Range(-5, 5))+1
+		a, b := 2*int64(r.Range(3, 8)), 2*int64(r.Range(3, 8))
+		var ring shapes.Ring
+		switch c % 4 {
+		case 0: // diamond
+			ring = shapes.Ring{{X: cx - a, Y: cy}, {X: cx, Y: cy - b}, {X: cx + a, Y: cy}, {X: cx, Y: cy + b}}
+		case 1: // dart (concave)
+			ring = shapes.Ring{{X: cx - a, Y: cy - b}, {X: cx, Y: cy - b + 2*int64(r.Range(1, 2))}, {X: cx + a, Y: cy - b}, {X: cx, Y: cy + b}}
+		case 2: // trapezoid
+			ring = shapes.Ring{{X: cx - a, Y: cy - b}, {X: cx + a, Y: cy - b}, {X: cx + a - 2*int64(r.Range(1, 2)), Y: cy + b}, {X: cx - a + 2*int64(r.Range(1, 2)), Y: cy + b}}
+		default: // triangle
+			ring = shapes.Ring{{X: cx - a, Y: cy - b}, {X: cx + a, Y: cy - b + 2*int64(r.Range(0, 2))}, {X: cx - a + 2*int64(r.Range(0, 3)), Y: cy + b}}
+		}
+		kind := "PG"
+		if c%8 >= 4 {
+			kind = "MPG"
+		}
+		P := shapes.Shape{Kind: kind, Polys: []shapes.Poly{{ring}}}
+		rs := P.Rings()
+		mn, mx, _ := P.BBox()
+		var path []ipt
+		nv := r.Range(2, 5)
+		for try := 0; try < 200 && len(path) < nv; try++ {
+			q := ipt{X: ev(r, mn.X+1, mx.X-1), Y: ev(r, mn.Y+1, mx.Y-1)}
+			if q.X <= mn.X || q.X >= mx.X || q.Y <= mn.Y || q.Y >= mx.Y || !canAppend(path, q) {
+				continue
+			}
+			cand := append(append([]ipt{}, path...), q)
+			if !gpPath(cand, rs) {
+				continue
+			}
+			path = cand
+		}
+		if len(path) < 2 {
+			continue
+		}
+		var l geom.Geom = toLS(path)
+		if c%3 == 2 {
+			l = geom.MultiLineString{toLS(path)}
+		}
+		f := scaleFor(r)
+		emit(shapes.ScaleGeom(l, f), shapes.ScaleGeom(P.ToGeom(2, r.Bool()), f))
+	}
+}
